@@ -1,14 +1,17 @@
 #!/bin/bash
-# tools/seeded_eval.sh <patch.diff> <check ids...>: apply a seeded change to /repo, run the quick checks, undo it straight afterwards.
-# Prints one line per check: <id> exit=<code> <VIOLATION lines>.
-patch="$1"; shift
+# tools/seeded_eval.sh <patch.diff> <check ids...>: run the quick checks against a seeded change.
+# The change is applied to a scratch worktree of /repo's HEAD (never committed, /repo itself untouched) which the checks
+# use through VERIF_REPO; the worktree is reset afterwards.  (Equivalent to: git -C /repo apply; run; git -C /repo checkout -- .)
+patch="$(realpath "$1")"; shift
 cd /verif || exit 2
-if ! git -C /repo diff --quiet; then echo "refusing: /repo has uncommitted changes"; exit 2; fi
-git -C /repo apply "$patch" || { echo "patch does not apply"; exit 2; }
-trap 'git -C /repo checkout -- . ' EXIT
+W=${MUT_WT:-/root/scratch/repo_mut}
+if [ ! -d "$W" ]; then git -C /repo worktree add -q --detach "$W" HEAD || exit 2; fi
+git -C "$W" checkout -q -- . ; git -C "$W" checkout -q --detach "$(git -C /repo rev-parse HEAD)"
+git -C "$W" apply "$patch" || { echo "patch does not apply"; exit 2; }
 for c in "$@"; do
-  out=$(./check "$c" --tier quick --no-evidence ${SEEDED_ARGS:-} 2>&1)
+  out=$(VERIF_REPO=$W ./check "$c" --tier quick --no-evidence ${SEEDED_ARGS:-} 2>&1)
   rc=$?
   echo "$c exit=$rc $(echo "$out" | grep -c '^VIOLATION') violation line(s)"
   echo "$out" | grep -E "class=|^VIOLATION|unknown violation" | cut -c1-400 | head -8
 done
+git -C "$W" checkout -q -- .
